@@ -10,6 +10,7 @@ import (
 	"database/sql/driver"
 	"fmt"
 	"reflect"
+	"strings"
 
 	"github.com/canonical/sqlair"
 	"verifharness/internal/zoo/other"
@@ -146,6 +147,53 @@ type Tags struct {
 	// format verbs: column text is data, never a format string
 	N int    `db:"\"pct%done\""`
 	O string `db:"'%d%%'"`
+}
+
+// SLevel and SCSV are Scanners (and Valuers) that are not structs: a defined integer and a
+// defined slice of strings, both with pointer-receiver Scan. NULL reaches Scan as nil.
+type SLevel int
+
+func (l SLevel) Value() (driver.Value, error) { return int64(l), nil }
+func (l *SLevel) Scan(v any) error {
+	switch x := v.(type) {
+	case int64:
+		*l = SLevel(x)
+	case nil:
+		*l = -1
+	default:
+		return fmt.Errorf("SLevel: cannot scan %T", v)
+	}
+	return nil
+}
+
+type SCSV []string
+
+func (c SCSV) Value() (driver.Value, error) {
+	if c == nil {
+		return "NIL", nil
+	}
+	return "[" + strings.Join(c, ",") + "]", nil
+}
+func (c *SCSV) Scan(v any) error {
+	switch x := v.(type) {
+	case []byte:
+		*c = strings.Split(string(x), ",")
+	case string:
+		*c = strings.Split(x, ",")
+	case nil:
+		*c = SCSV{}
+	default:
+		return fmt.Errorf("SCSV: cannot scan %T", v)
+	}
+	return nil
+}
+
+// ScanKinds has Scanner members of non-struct kinds.
+type ScanKinds struct {
+	ID   int     `db:"id"`
+	Lv   SLevel  `db:"lv"`
+	Tags SCSV    `db:"tags"`
+	PLv  *SLevel `db:"plv"`
 }
 
 // MyV implements Valuer and Scanner.
@@ -415,13 +463,14 @@ var Entries = []Entry{
 	e(Bytes{}, "slice", false),
 	e(Levels{}, "slice", false),
 	e(Graded{}, "struct", false, "id", "lv", "blob", "plv"),
+	e(ScanKinds{}, "struct", false, "id", "lv", "tags", "plv"),
 }
 
 // Shadows are types with the same name as a zoo type but from another package.
 var Shadows = map[string]reflect.Type{
-	"Person": reflect.TypeOf(other.Person{}),
-	"M":      reflect.TypeOf(other.M{}),
-	"Ints":   reflect.TypeOf(other.Ints{}),
+	"Person":  reflect.TypeOf(other.Person{}),
+	"M":       reflect.TypeOf(other.M{}),
+	"Ints":    reflect.TypeOf(other.Ints{}),
 	"Address": reflect.TypeOf(other.Address{}),
 	"Omit":    reflect.TypeOf(other.Omit{}),
 	"MS":      reflect.TypeOf(other.MS{}),
